@@ -41,6 +41,7 @@ logging.disable(logging.CRITICAL)
 NODE = 5
 WAIT_TIMEOUT = 0.2
 BURST_SIG = "wait_burst_skips_match"      # fixed in /repo by 435c8a8 (wait looked only at log[-1])
+RESET_SIG = "wait_not_woken_by_reset"     # an error-reset frame does not wake the waiting caller
 DEADLINE_SIG = "wait_ignores_deadline"    # an entry logged after the deadline of the call is handed out
 GAP_SIG = "wait_gap_skips_match"          # fixed in /repo by 435c8a8 (frame logged between two iterations of the loop)
 ANCHORS = [("canopen.emcy", "EmcyConsumer.on_emcy"), ("canopen.emcy", "EmcyConsumer.wait"),
@@ -536,7 +537,11 @@ def oracle(c, o):
         if o != want:
             looked_at = first([frame_fields(f, ts) for b in c["wakes"] for f, ts in b])
             ignoring_deadline = first([frame_fields(f, ts) for b, g in zip(c["wakes"], gaps) for f, ts in b + g])
+            flat = [frame_fields(f, ts) for b, g in in_time for f, ts in b + g]
+            after = flat[flat.index(want) + 1:] if want in flat else []
             sig = (DEADLINE_SIG if late_at is not None and o == ignoring_deadline else
+                   RESET_SIG if o is None and want is not None and is_reset_frame(want[0])
+                   and all(is_reset_frame(e[0]) for e in after) else
                    GAP_SIG if any(gaps) and o == looked_at else
                    BURST_SIG if any(len(b) > 1 for b in c["wakes"]) else "wait_wrong_entry")
             sched = "; ".join(", ".join(_fmt_entry(frame_fields(f, ts)) for f, ts in b) +
